@@ -2,7 +2,7 @@
 from __future__ import annotations
 
 from vf.core import SECTOR, Model, RawLayer, as_handle, rng_for
-from vf.diskcheck import compare_reads, continuation_reads, fault_retry_reads, crossing_count, gen_requests
+from vf.diskcheck import closed_handle_reads, compare_reads, continuation_reads, fault_retry_reads, crossing_count, gen_requests
 from vf.monitors import call
 from vf.writers import qcow2 as w
 
@@ -244,6 +244,8 @@ def run(case: dict, ctx) -> dict:
     for h in (fh, dfh, backing):
         if h is not None and hasattr(h, "mutations") and h.mutations:
             res["viol"].append({"what": "handle mutated", "mech": "c09.handle", "detail": {"m": h.mutations[:3]}})
+    if case["i"] % 4 == 0 and not big:
+        closed_handle_reads(q, model, [fh], reqs, rng, res, MECH)
     kinds_now = "".join(view.kinds.get(g, "U") for g in range(ncl))
     cnt = res["cnt"]
     cnt["inflate_calls"] = len(infl)
